@@ -1,9 +1,10 @@
 /-
   C11 — buffer level is conserved and partial transfers are reported exactly
-  Property theorems only (the process-layer model is CimbaModel/Sim; helper lemmas in CimbaModel/Sim/*).
+  Property theorems only (the process-layer model is CimbaModel/Sim; helper lemmas in CimbaModel/Sim/S2*).
 -/
 import CimbaModel.Sim.Basic
 import CimbaModel.HashHeap.Orders
+import CimbaModel.Sim.S2BufCalls
 
 namespace CimbaModel.Props.C11
 open CimbaModel CimbaModel.Sim CimbaModel.Event CimbaModel.Generated CimbaModel.HashHeap.SpecOrders
@@ -13,5 +14,140 @@ open CimbaModel.HashHeap (HTag Item Order HH)
 theorem buffer_demands (w : World) (b : Nat) (x : Buf) (hx : w.bufs[b]? = some x) :
     (evalDemand w (.bufContent b) = true ↔ 0 < x.level) ∧ (evalDemand w (.bufSpace b) = true ↔ x.level < x.cap) := by
   simp [evalDemand, hx]
+
+/-! ### the invariant -/
+
+/-- what `BufInv` says: **the level equals the total amount put so far minus the total amount got so far** (stated
+    without subtraction) **and stays between zero and the capacity** -/
+theorem buffer_invariant_unfolded {w : World} (hi : BufInv w) {b : Nat} {x : Buf} (hx : w.bufs[b]? = some x) :
+    x.level + x.getTotal = x.putTotal ∧ x.level = x.putTotal - x.getTotal ∧ x.getTotal ≤ x.putTotal ∧ x.level ≤ x.cap := by
+  have ok := hi.get hx
+  have := ok.conserve
+  exact ⟨ok.conserve, by omega, by omega, ok.inCap⟩
+
+/-- one dispatched event — everything the resumed process does until it yields — keeps the invariant -/
+theorem buffer_invariant_dispatch {w w' : World} (hi : BufInv w) (hd : dispatch w = some w') : BufInv w' :=
+  BufInv.preserved.dispatch hi hd
+
+/-- hence it holds in every reachable state, for all programs, schedules and same-instant coincidences -/
+theorem buffer_invariant_reachable {w : World} (hi : BufInv w) (fuel : Nat) : BufInv (runAll fuel w) :=
+  BufInv.preserved.runAll fuel w hi
+
+/-- it holds initially: buffers created empty, or pre-filled up to their capacity with the totals set accordingly -/
+theorem buffer_invariant_initial (w : World)
+    (h : ∀ (b : Nat) (x : Buf), w.bufs[b]? = some x → x.level ≤ x.cap ∧ x.putTotal = x.level ∧ x.getTotal = 0) : BufInv w := by
+  intro b x hx
+  obtain ⟨h1, h2, h3⟩ := h b x hx
+  exact ⟨by omega, h1⟩
+
+/-! ### one pass of the get / put loop -/
+
+/-- one pass of `cmb_buffer_get`: either the remaining claim is there — success, the report is `got + rem`, exactly `rem`
+    left the buffer — or the pass takes all there is and suspends with the claim reduced and `got` increased by exactly
+    the amount taken -/
+theorem get_pass {w : World} (p : Pid) {b : Nat} {x : Buf} (hx : w.bufs[b]? = some x) (rem got : Nat) :
+    (x.level ≥ rem ∧ (bufGetLoop w p b rem got).2 = .ret sigSuccess s!"amt={got + rem}" ∧
+      bufView (bufGetLoop w p b rem got).1 b = some ⟨x.cap, x.level - rem, x.putTotal, x.getTotal + rem⟩) ∨
+    (x.level < rem ∧ ∃ w1, bufGetLoop w p b rem got = block w1 p (.bufGet b (rem - x.level) (got + x.level)) ∧
+      bufView w1 b = some ⟨x.cap, 0, x.putTotal, x.getTotal + x.level⟩) :=
+  bufGetLoop_pass p hx rem got
+
+theorem put_pass {w : World} (p : Pid) {b : Nat} {x : Buf} (hx : w.bufs[b]? = some x) (rem left : Nat) :
+    (x.cap - x.level ≥ rem ∧ (bufPutLoop w p b rem left).2 = .ret sigSuccess s!"amt={left - rem}" ∧
+      bufView (bufPutLoop w p b rem left).1 b = some ⟨x.cap, x.level + rem, x.putTotal + rem, x.getTotal⟩) ∨
+    (x.cap - x.level < rem ∧ ∃ w1, bufPutLoop w p b rem left =
+        block w1 p (.bufPut b (rem - (x.cap - x.level)) (left - (x.cap - x.level))) ∧
+      bufView w1 b = some ⟨x.cap, x.level + (x.cap - x.level), x.putTotal + (x.cap - x.level), x.getTotal⟩) :=
+  bufPutLoop_pass p hx rem left
+
+/-- the command starts the first pass with the full claim, nothing received yet -/
+theorem get_starts (w : World) (p : Pid) (b n : Nat) (hb : b < w.bufs.size) :
+    execCmd w p (.bufGet b n) = bufGetLoop w p b n 0 := execCmd_bufGet w p b n hb
+
+theorem put_starts (w : World) (p : Pid) (b n : Nat) (hb : b < w.bufs.size) (hn : n ≠ 0) :
+    execCmd w p (.bufPut b n) = bufPutLoop w p b n n := execCmd_bufPut w p b n hb hn
+
+/-- a suspended get continues with another pass on a grant, and returns at once — reporting `got`, the part received so
+    far, the buffer untouched — on any other signal -/
+theorem get_resumes (w : World) (p : Pid) (b rem got : Nat) (sig : Int) (x : Buf) (hx : w.bufs[b]? = some x) :
+    resumeFrame w p (.bufGet b rem got) sig =
+      (if sig = sigSuccess then bufGetLoop (guardWaitLeave w x.front p sig) p b rem got
+       else (guardWaitLeave w x.front p sig, .ret sig s!"amt={got}")) ∧
+    bufView (guardWaitLeave w x.front p sig) b = bufView w b :=
+  ⟨resumeFrame_bufGet w p b rem got sig x hx, bufView_guardWaitLeave w x.front p sig b⟩
+
+theorem put_resumes (w : World) (p : Pid) (b rem left : Nat) (sig : Int) (x : Buf) (hx : w.bufs[b]? = some x) :
+    resumeFrame w p (.bufPut b rem left) sig =
+      (if sig = sigSuccess then bufPutLoop (guardWaitLeave w x.rear p sig) p b rem left
+       else (guardWaitLeave w x.rear p sig, .ret sig s!"amt={left}")) ∧
+    bufView (guardWaitLeave w x.rear p sig) b = bufView w b :=
+  ⟨resumeFrame_bufPut w p b rem left sig x hx, bufView_guardWaitLeave w x.rear p sig b⟩
+
+/-! ### a whole call (`GetRun` / `PutRun`: the call as the sequence of its passes, anything happening in between) -/
+
+/-- **get_ok**: a `cmb_buffer_get(n)` that returns success reports `amt = n`, and its passes took exactly `n` out of the
+    buffer (measured on the ghost total `getTotal`) -/
+theorem get_ok {p : Pid} {b n m : Nat} {extra : String} (h : GetRun p b n 0 m sigSuccess extra) :
+    extra = s!"amt={n}" ∧ m = n := by
+  obtain ⟨e1, e2⟩ := h.exact
+  have := e2 rfl
+  subst this
+  exact ⟨by simpa using e1, rfl⟩
+
+/-- **get_intr**: a get that returns with any other signal reports exactly the part its passes transferred before the
+    interruption -/
+theorem get_intr {p : Pid} {b n m : Nat} {sig : Int} {extra : String} (h : GetRun p b n 0 m sig extra) :
+    extra = s!"amt={m}" := by
+  simpa using h.exact.1
+
+/-- **put_ok**: a `cmb_buffer_put(n)` that returns success reports 0 left over, and its passes put exactly `n` in -/
+theorem put_ok {p : Pid} {b n m : Nat} {extra : String} (h : PutRun p b n n m sigSuccess extra) :
+    extra = s!"amt={0}" ∧ m = n := by
+  obtain ⟨e1, _, e3⟩ := h.exact (Nat.le_refl _)
+  have := e3 rfl
+  subst this
+  exact ⟨by simpa using e1, rfl⟩
+
+/-- **put_intr**: a put that returns with any other signal reports as left over exactly `n` minus the part transferred;
+    that part never exceeds `n` -/
+theorem put_intr {p : Pid} {b n m : Nat} {sig : Int} {extra : String} (h : PutRun p b n n m sig extra) :
+    extra = s!"amt={n - m}" ∧ m ≤ n :=
+  ⟨(h.exact (Nat.le_refl _)).1, (h.exact (Nat.le_refl _)).2.1⟩
+
+/-- the part transferred by a pass is reflected in the level: after a pass of get on a buffer satisfying the invariant,
+    `level' + (getTotal' − getTotal) = level` -/
+theorem get_pass_level {w : World} (p : Pid) {b : Nat} {x : Buf} (hx : w.bufs[b]? = some x) (rem got : Nat) :
+    levelOf (bufGetLoop w p b rem got).1 b + (getTotalOf (bufGetLoop w p b rem got).1 b - getTotalOf w b) = x.level := by
+  have hv0 := bufView_of_get hx
+  rcases bufGetLoop_pass p hx rem got with ⟨hge, _, hview⟩ | ⟨hlt, w1, hblk, hview⟩
+  · rw [getTotalOf_of_view hview, getTotalOf_of_view hv0]
+    unfold levelOf; rw [hview]
+    simp [Buf.view]; omega
+  · have hv1 : bufView (bufGetLoop w p b rem got).1 b = some ⟨x.cap, 0, x.putTotal, x.getTotal + x.level⟩ := by
+      rw [hblk, bufView_block]; exact hview
+    rw [getTotalOf_of_view hv1, getTotalOf_of_view hv0]
+    unfold levelOf; rw [hv1]
+    simp [Buf.view]
+
+/-! ### the hypotheses are satisfiable -/
+
+example : BufInv { bufs := #[{ cap := 7, front := 0, rear := 1 }] } := by
+  apply buffer_invariant_initial
+  intro b x hx
+  rcases b with _ | b
+  · simp at hx; subst hx; exact ⟨by decide, rfl, rfl⟩
+  · simp at hx
+
+/-- a call interrupted before anything was transferred -/
+example : GetRun 0 0 5 0 0 sigInterrupted s!"amt={0}" := GetRun.intr (by decide)
+
+/-- a one-pass successful get of 3 from a buffer holding 4 -/
+example : ∃ m extra, GetRun 0 0 3 0 m sigSuccess extra ∧ m = 3 := by
+  let w : World := { bufs := #[{ cap := 7, level := 4, putTotal := 4, front := 0, rear := 1 }] }
+  have hx : w.bufs[0]? = some { cap := 7, level := 4, putTotal := 4, front := 0, rear := 1 } := rfl
+  rcases bufGetLoop_pass 0 hx 3 0 with ⟨_, hret, _⟩ | ⟨hlt, _⟩
+  · have h := GetRun.last (p := 0) hx hret
+    exact ⟨_, _, h, (get_ok h).2⟩
+  · exact absurd hlt (by decide)
 
 end CimbaModel.Props.C11
